@@ -62,6 +62,7 @@ pub struct Table {
 pub struct Rule {
     pub body: Vec<Sexp>,
     pub head: Vec<Sexp>,
+    pub name: Option<String>,
 }
 
 #[derive(Clone, Debug, PartialEq)]
@@ -751,7 +752,7 @@ impl Model {
     }
 
     // ---------------------------------------------------------------- rules & schedules
-    fn rules_of(&self, rs: &str) -> MRes<Vec<Rule>> {
+    pub fn rules_of(&self, rs: &str) -> MRes<Vec<Rule>> {
         if let Some(members) = self.combined.get(rs) {
             let mut v = Vec::new();
             for m in members {
@@ -1072,6 +1073,7 @@ impl Model {
                 let Some(body) = args.first().and_then(|x| x.as_list()) else { return fail("Parse") };
                 let Some(head) = args.get(1).and_then(|x| x.as_list()) else { return fail("Parse") };
                 let mut rs = "".to_string();
+                let mut name = None;
                 let mut i = 2;
                 while i < args.len() {
                     match args[i].as_atom() {
@@ -1080,12 +1082,17 @@ impl Model {
                             i += 2;
                         }
                         Some(":naive") | Some(":no-decomp") | Some(":unsafe-seminaive") => i += 1,
-                        Some(":name") => i += 2,
+                        Some(":name") => {
+                            if let Some(Sexp::Str(n)) = args.get(i + 1) {
+                                name = Some(n.clone());
+                            }
+                            i += 2;
+                        }
                         _ => return unsup("rule option"),
                     }
                 }
                 let Some(list) = self.rulesets.get_mut(&rs) else { return fail("NoSuchRuleset") };
-                list.push(Rule { body: body.to_vec(), head: head.to_vec() });
+                list.push(Rule { body: body.to_vec(), head: head.to_vec(), name });
                 Ok(vec![])
             }
             Some(h @ ("rewrite" | "birewrite")) => {
@@ -1125,7 +1132,7 @@ impl Model {
                     if subsume {
                         head.push(Sexp::call("subsume", vec![l.clone()]));
                     }
-                    Rule { body, head }
+                    Rule { body, head, name: None }
                 };
                 let r1 = mk(&lhs, &rhs, &conds, subsume);
                 self.rulesets.get_mut(&rs).unwrap().push(r1);
